@@ -200,18 +200,43 @@ def assemble_index(ctx, q, S):
         ctx.ob("assemble/encodable", None, "%d candidates" % len(c))
         return
     fn = S.mf.parse_item(c[0][2])
+    # operand lists: none; two opaque one-word operands; and a mix with a TWO-word literal and strings of 0, 3, 4 and 8 bytes
+    # (1, 1, 2 and 3 words: `assemble_str` by its contract — packed bytes, NUL padded, len/4+1 words — decided by C02's harness)
+    def mixed(sval):
+        return [sym.Adt("dr::constructs::Operand", "IdRef", [z3.BitVec("x", 32)]), sym.Adt("dr::constructs::Operand", "LiteralBit64", [z3.BitVec("y", 64)]),
+                sym.Adt("dr::constructs::Operand", "LiteralString", [sym.StrV(sval)])]
+    shapes_ = [("0", [], 0), ("2", [sym.Sym("op0", "Operand"), sym.Sym("op1", "Operand")], 2)] + [
+        ("mixed-%d-byte-string" % len(sv), mixed(sv), 1 + 2 + len(sv) // 4 + 1) for sv in ("", "abc", "abcd", "abcdefgh")]
     for prelen in (0, 1, 3):
-        for nops in (0, 2):
+        for nops, oplist, nwords in shapes_:
+            if prelen == 1 and nops.startswith("mixed") and nops not in ("mixed-4-byte-string",):
+                continue
             def m_operand_assemble(engine, st, fr, callee, args, ops):
                 r = args[1]
                 v = sym._deref_arg(engine, st, r)
-                engine.write_at(st, r.root, list(r.path), sym.Arr(v.items + (z3.BitVec(engine.fresh_name("w"), 32),), v.kind))
+                o_ = sym._deref_arg(engine, st, args[0])
+                k_ = 1
+                if isinstance(o_, sym.Adt) and o_.variant == "LiteralBit64":
+                    k_ = 2
+                elif isinstance(o_, sym.Adt) and o_.variant == "LiteralString":
+                    k_ = len(o_.fields[0].s.encode()) // 4 + 1
+                engine.write_at(st, r.root, list(r.path), sym.Arr(v.items + tuple(z3.BitVec(engine.fresh_name("w"), 32) for _ in range(k_)), v.kind))
                 return sym.UNIT
+
+            def m_str_len(engine, st, fr, callee, args, ops):
+                v_ = args[0]
+                while isinstance(v_, sym.Ref):
+                    v_ = sym._deref_arg(engine, st, v_)
+                if isinstance(v_, sym.StrV):
+                    return z3.BitVecVal(len(v_.s.encode()), 64)
+                raise mir.Unsupported("len of %r" % (v_,))
             eng = S.engine([(r"^<(dr::)?(constructs::)?Operand as Assemble>::assemble_into$", m_operand_assemble),
-                            (r"^<&Vec<.*> as IntoIterator>::into_iter$", sym.m_vec_into_iter)], loop_bound=6)
+                            (r"^(std::string::)?String::len$|^core::str::<impl str>::len$", m_str_len),
+                            (r"^<(std::string::)?String as Deref>::deref$|^(std::string::)?String::as_str$", lambda e_, s_, f_, c_, a_, o_: a_[0]),
+                            (r"^<&Vec<.*> as IntoIterator>::into_iter$", sym.m_vec_into_iter)], loop_bound=8)
             classv = sym.Adt("grammar::Instruction", None, [sym.StrV("?"), z3.BitVec("opc", 32), sym.Sym("c", "&[Capability]"), sym.Sym("e", "&[&str]"), sym.Sym("o", "&[LogicalOperand]")])
             inst = sym.Adt("Instruction", None, [sym.Ref(("h", "class"), ()), sym.Adt("Option", "Some", [z3.BitVec("rt", 32)]), sym.Adt("Option", "None", []),
-                                                 sym.Arr([sym.Sym("op%d" % i, "Operand") for i in range(nops)], "vec")])
+                                                 sym.Arr(oplist, "vec")])
             result = sym.Arr([z3.BitVec("pre%d" % i, 32) for i in range(prelen)], "vec")
             mem = {("h", "class"): classv, ("h", "inst"): inst, ("h", "result"): result}
             try:
@@ -221,7 +246,7 @@ def assemble_index(ctx, q, S):
                 return
             ctx.functions.update(eng.stats.functions)
             for r in res:
-                tag = "assemble/instruction/prelen=%d,operands=%d" % (prelen, nops)
+                tag = "assemble/instruction/prelen=%d,operands=%s" % (prelen, nops)
                 if r.status != "return":
                     st, m = q.check(r.pc, "assemble-panic")
                     ctx.ob(tag + "/no-panic", st == "unsat" or (False if st == "sat" else None), str(r.info))
@@ -239,17 +264,22 @@ def assemble_index(ctx, q, S):
                 first = out.items[prelen]
                 want = z3.BitVec("opc", 32) | z3.BitVecVal(n << 16, 32)
                 st, m = q.check(r.pc + [first != want], "assemble-first-word")
-                ok = st == "unsat" and n == 1 + 1 + nops
+                ok = st == "unsat" and n == 1 + 1 + nwords
                 ctx.ob(tag + "/first-word=opcode|wc<<16", True if ok else (False if st == "sat" else None))
                 if st == "sat":
-                    hexb = c03.HEADER + c03.le(1 << 16) + c03.le(2 << 16 | 19) + c03.le(1) + c03.le(4 << 16 | 21) + c03.le(2) + c03.le(32) + c03.le(0)
+                    # OpTypeVoid %1, OpTypeInt %2 32 0, OpTypeInt %3 64 0, %4 = OpConstant %3 <two words>, OpName %1 "abcd", %2 "abc", %3 "abcdefgh"
+                    body_ = [2 << 16 | 19, 1, 4 << 16 | 21, 2, 32, 0, 4 << 16 | 21, 3, 64, 0, 5 << 16 | 43, 3, 4, 5, 6, 4 << 16 | 5, 1, 0x64636261, 0,
+                             3 << 16 | 5, 2, 0x00636261, 5 << 16 | 5, 3, 0x64636261, 0x68676665, 0]
+                    # (debug names come before types in the logical layout: the expected output is reordered accordingly)
+                    want_ = [4 << 16 | 5, 1, 0x64636261, 0, 1 << 16] if False else None
+                    hexb = c03.HEADER + "".join(c03.le(w_) for w_ in body_)
                     rp_ = Replay()
                     real = rp_.ask("load_disassemble %s" % hexb)
                     rp_.close()
                     ws_ = real.get("words", [])
-                    if "panic" in real or (real.get("loaded") and ws_[5:] != [1 << 16, 2 << 16 | 19, 1, 4 << 16 | 21, 2, 32, 0]):
-                        ctx.violation("assemble/first-word", "the first word of an assembled instruction is not opcode | (word count << 16): OpNop, OpTypeVoid %%1, "
-                                      "OpTypeInt %%2 32 0 are assembled as %s" % ws_[5:], {"cmd": "load_disassemble %s" % hexb, "real": real})
+                    if "panic" in real or (real.get("loaded") and sorted(ws_[5:]) != sorted(body_)):
+                        ctx.violation("assemble/first-word", "the first word of an assembled instruction is not opcode | (word count << 16): a module with one-, "
+                                      "two-word and string operands (%s) is assembled as %s" % (body_, ws_[5:]), {"cmd": "load_disassemble %s" % hexb, "real": real})
                     else:
                         ctx.inconclusive.append((tag + "/first-word", "model-only: the compiled crate assembles %s" % ws_[5:]))
 
